@@ -92,6 +92,12 @@ fn parse_cycle(mut arguments: TagTokenIter<'_>, _options: &Language) -> Result<C
         }
     }
 
+    if values.is_empty() {
+        return Error::with_msg("Value expected.")
+            .context("cycle", name)
+            .into_err();
+    }
+
     if name.is_empty() {
         name = itertools::join(values.iter(), "-");
     }
